@@ -573,7 +573,7 @@ func (w *World) lemmaVC(lm *Lemma, prop string) VC {
 				pre = append(pre, "(assert "+inv+")")
 			}
 		}
-		for i := 0; i < 2; i++ {
+		for i := 0; i < 4; i++ {
 			c := fmt.Sprintf("lgsk!%d", i)
 			g.declare(fmt.Sprintf("(declare-fun %s () Int)", c))
 			env.goalSk = append(env.goalSk, c)
